@@ -19,7 +19,7 @@ using tbox::event::Loop;
 using tbox::event::SignalEvent;
 
 namespace {
-enum { CFG, NEW, ENABLE, DISABLE, DESTROY, RAISE, NOPS };
+enum { CFG, NEW, ENABLE, DISABLE, DESTROY, RAISE, BATCH, NOPS };
 const int kNSig = 6, kMaxLoops = 3, kMaxEvents = 10;
 int sig_of(int i) { static const int base[2] = {SIGUSR1, SIGUSR2}; return i < 2 ? base[i] : SIGRTMIN + 1 + (i - 2); }
 
@@ -88,7 +88,7 @@ std::string run(const Scenario &s, CaseInfo &info) {
   std::string err; char buf[300];
   int sentinel_expect[kNSig] = {0};
   bool nt_two_loops_one_sig = false, nt_resubscribe_after_zero = false; bool went_zero[kNSig] = {false};
-  int raises = 0, skipped_raises = 0, oneshot_fired = 0;
+  int raises = 0, skipped_raises = 0, oneshot_fired = 0, nt_batches = 0;
 
   auto subs_of = [&](int si) { int n = 0; for (int e = 0; e < nev; ++e) if (evs[e].alive && evs[e].enabled && (evs[e].mask >> si & 1)) n++; return n; };
   auto check_disposition = [&](const char *after) {
@@ -146,6 +146,37 @@ std::string run(const Scenario &s, CaseInfo &info) {
         for (int i = 0; i < kNSig; ++i) if ((E.mask >> i & 1) && subs_of(i) == 0) went_zero[i] = true;
         check_disposition(op.code == ENABLE ? "enable" : op.code == DISABLE ? "disable" : "destroy");
         break; }
+      case BATCH: {
+        // several subscription changes on events of ONE loop inside ONE loop task (e.g. "disable the loop's last
+        // subscriber, then enable another event" before the loop has run its deferred tasks)
+        if (nev == 0) break;
+        int first = (int)op.in(0, 0, nev - 1); if (!evs[first].alive) break;
+        int L = evs[first].loop;
+        struct Step { int e; int act; }; std::vector<Step> steps;     // act 0 enable, 1 disable
+        for (int j = 0; j < 4; ++j) {
+          int e = (int)op.in(1 + 2 * j, 0, nev - 1); int act = (int)op.in(2 + 2 * j, 0, 1);
+          if (j == 0) e = first;
+          if (!evs[e].alive || evs[e].loop != L) continue;
+          steps.push_back({e, act});
+        }
+        if (steps.size() >= 2) nt_batches++;
+        std::vector<int> oks(steps.size(), 1), ens(steps.size(), 0);
+        for (auto &st : steps) if (st.act == 0) for (int i = 0; i < kNSig; ++i) if ((evs[st.e].mask >> i & 1) && subs_of(i) == 0 && went_zero[i]) nt_resubscribe_after_zero = true;
+        lt[L].call([&] {
+          for (size_t j = 0; j < steps.size(); ++j) {
+            Ev &E = evs[steps[j].e];
+            oks[j] = steps[j].act == 0 ? E.ev->enable() : E.ev->disable();
+            ens[j] = E.ev->isEnabled();
+          }
+        });
+        for (size_t j = 0; j < steps.size() && err.empty(); ++j) {
+          Ev &E = evs[steps[j].e]; E.enabled = steps[j].act == 0;
+          if (!oks[j]) { snprintf(buf, sizeof buf, "op %zu: batched %s of event %d returned false", k, steps[j].act == 0 ? "enable()" : "disable()", steps[j].e); err = buf; }
+          else if ((bool)ens[j] != E.enabled) { snprintf(buf, sizeof buf, "op %zu: isEnabled() of event %d after a batched change is %d, model says %d", k, steps[j].e, ens[j], (int)E.enabled); err = buf; }
+          for (int i = 0; i < kNSig; ++i) if ((E.mask >> i & 1) && subs_of(i) == 0) went_zero[i] = true;
+        }
+        if (err.empty()) check_disposition("batched changes");
+        break; }
       case RAISE: {
         int si = (int)op.in(0, 0, kNSig - 1);
         int nsub = subs_of(si);
@@ -188,14 +219,15 @@ std::string run(const Scenario &s, CaseInfo &info) {
   info.cls_if(nt_resubscribe_after_zero, "resubscribe_after_unsubscribe_to_zero");
   info.cls_if(oneshot_fired > 0, "oneshot_fired");
   info.cls_if(skipped_raises > 0, "raise_skipped_default_action");
+  info.cls_if(nt_batches > 0, "several_changes_in_one_loop_task");
   info.nontrivial = raises > 0 && nt_two_loops_one_sig && nt_resubscribe_after_zero;
   return "";
 }
 
 SubDef def = [] {
   SubDef d; d.name = "signals";
-  d.op_names = {"cfg", "new", "enable", "disable", "destroy", "raise"};
-  d.op_arity = {7, 3, 1, 1, 1, 1};
+  d.op_names = {"cfg", "new", "enable", "disable", "destroy", "raise", "batch"};
+  d.op_arity = {7, 3, 1, 1, 1, 1, 9};
   d.nt_rule = "history with a delivery that reaches subscribers in >= 2 loops and >= 1 unsubscribe-to-zero of a signal followed by a re-subscription of it";
   d.run = run;
 #ifndef VERIF_ENGINE_FUZZ
@@ -208,6 +240,7 @@ SubDef def = [] {
       {4, mkop(DISABLE, {ev})},
       {1, mkop(DESTROY, {ev})},
       {6, mkop(RAISE, {rc::gen::weightedOneOf<int64_t>({{3, range(0, 1)}, {1, range(0, kNSig - 1)}})})},
+      {3, mkop(BATCH, {ev, ev, range(0, 1), ev, range(0, 1), ev, range(0, 1), ev, range(0, 1)})},
     });
     auto cfg = mkop(CFG, {rc::gen::weightedOneOf<int64_t>({{1, rc::gen::just<int64_t>(1)}, {3, range(2, kMaxLoops)}}), range(0, 4), range(0, 4), range(0, 4), range(0, 4), range(0, 4), range(0, 4)});
     auto mk = mkop(NEW, {range(0, kMaxLoops - 1), mask, range(0, 3)});
